@@ -1040,7 +1040,9 @@ fn exec_line(cx: &mut Ctx, line: &str) -> String {
                         }
                     }
                     if unique {
-                        for (id, addr) in &truth {
+                        // every live id (a sample of them for very long fragments: address lookups are linear there)
+                        let step = if truth.len() > 4000 { 97 } else { 1 };
+                        for (id, addr) in truth.iter().step_by(step) {
                             let g = pcatch(|| ix.get(*id).map(u64::from)).flatten();
                             if g != Some(*addr) {
                                 cx.fail("index_get", format!("index.get({id}) = {:?}, the row is at {addr}", g));
@@ -1732,7 +1734,7 @@ impl Prop for C34 {
             }
             outputs.push(o);
         }
-        let nontrivial = cx.regs.values().any(|(_, l)| l.len() >= 2)
+        let nontrivial = (cx.regs.values().any(|(_, l)| l.len() >= 2) || lines.iter().any(|l| l.starts_with("hpos ") || l.starts_with("ebs ")))
             && lines.iter().any(|l| !(l.starts_with("seg ") || l.starts_with("qids ") || l.starts_with("qraw ") || l.starts_with("sraw ") || l.starts_with("qrange ")));
         CaseResult { outputs, failures: cx.fails, tags: cx.tags.into_iter().collect(), nontrivial }
     }
